@@ -4,6 +4,7 @@ package flag
 // range errors, accumulation.
 
 import (
+	"time"
 	"context"
 	"reflect"
 	"strconv"
@@ -259,3 +260,65 @@ func HarnessC12Collections() { c12run(false, true) }
 
 // HarnessC12All: the full product (thorough).
 func HarnessC12All() { c12run(true, true) }
+
+type c12extra struct {
+	When  time.Time
+	Nums  []int16
+	Sizes []uint8
+	Until time.Time
+}
+
+// HarnessC12Extras: a time leaf advertises its full template value (nanoseconds included), and an
+// integer slice flag given with an empty list sets its leaf to an empty list (not to "unset").
+func HarnessC12Extras() {
+	when := time.Unix(1700000000, 123456789).UTC()
+	tmpl := c12extra{When: when, Nums: []int16{7}, Sizes: []uint8{1}}
+	var args []string
+	numsMode := zzverif.Choose("nums", 3)   // absent, empty list, empty list then a value
+	sizesMode := zzverif.Choose("sizes", 2) // absent, empty list
+	untilMode := zzverif.Choose("until", 2)
+	switch numsMode {
+	case 1:
+		args = append(args, "-nums", "")
+	case 2:
+		args = append(args, "-nums", "", "-nums", "3")
+	}
+	if sizesMode == 1 {
+		args = append(args, "-sizes", "")
+	}
+	if untilMode == 1 {
+		args = append(args, "-until", "2024-01-02T03:04:05.5Z")
+	}
+	fs, err := NewSetWithArgs(DefaultFlagNameConfig(), &tmpl, args)
+	zzverif.Assert(err == nil, "C12 registering flags failed")
+	if err != nil {
+		return
+	}
+	wf := fs.Flags.Lookup("when")
+	zzverif.Assert(wf != nil && wf.DefValue == "2023-11-14T22:13:20.123456789Z", "C12 flag when: the advertised default is not the template's value (sub-second part included)")
+	nf := fs.Flags.Lookup("nums")
+	zzverif.Assert(nf != nil && nf.DefValue == "7", "C12 flag nums: the advertised default is not the template's value")
+	val, verr := fs.Value(context.Background(), dials.NewType(fs.ptrType))
+	zzverif.Assert(verr == nil, "C12 the flag source failed although every flag given holds a valid value")
+	if verr != nil {
+		return
+	}
+	zzverif.Assert(val.FieldByName("When").IsNil(), "C12 -when: leaf set although its flag was not on the command line")
+	ns := val.FieldByName("Nums")
+	zzverif.Assert(ns.IsNil() == (numsMode == 0), "C12 -nums: a slice flag that appeared on the command line (with an empty list) must set its leaf, and only then")
+	if numsMode == 2 && !ns.IsNil() {
+		zzverif.Assert(ns.Len() == 1 && ns.Index(0).Int() == 3, "C12 -nums: repeated integer slice flags must accumulate")
+	}
+	if numsMode == 1 && !ns.IsNil() {
+		zzverif.Assert(ns.Len() == 0, "C12 -nums with an empty list: the default leaked into the parsed value")
+	}
+	sz := val.FieldByName("Sizes")
+	zzverif.Assert(sz.IsNil() == (sizesMode == 0), "C12 -sizes: a slice flag that appeared on the command line (with an empty list) must set its leaf, and only then")
+	un := val.FieldByName("Until")
+	zzverif.Assert(un.IsNil() == (untilMode == 0), "C12 -until: leaf set/unset wrongly")
+	if untilMode == 1 && !un.IsNil() {
+		got := un.Elem().Interface().(time.Time)
+		zzverif.Assert(got.Equal(time.Date(2024, 1, 2, 3, 4, 5, 500000000, time.UTC)), "C12 -until: wrong value")
+	}
+	zzverif.Reached("c12-extras-end")
+}
